@@ -142,6 +142,12 @@ class HashC(_ObjBase):
             return NotImplemented
         ex.augassign_hook = aug
 
+        def binop(ex, e, a, b, st):          # `acc = acc ^ h` is the same operation as `acc ^= h`
+            if isinstance(e.op, ast.BitXor) and isinstance(a, z3.ArithRef) and isinstance(b, z3.ArithRef):
+                return xor(a, b)
+            return NotImplemented
+        ex.binop_hook = binop
+
     def loops(self, cx):
         def inv(ex, st):
             o = cx.entry_env['self']
@@ -418,6 +424,12 @@ class HashFnC(RtContract):
                 return xor(cur, v)
             return NotImplemented
         ex.augassign_hook = aug
+
+        def binop(ex, e, a, b, st):          # `acc = acc ^ h` is the same operation as `acc ^= h`
+            if isinstance(e.op, ast.BitXor) and isinstance(a, z3.ArithRef) and isinstance(b, z3.ArithRef):
+                return xor(a, b)
+            return NotImplemented
+        ex.binop_hook = binop
 
         def raise_hook(ex, s, st):
             return ('reraise' if s.exc is None else ast.unparse(s.exc),)
